@@ -614,34 +614,38 @@ end Physis.C05
 `src/exd.rs` (big-endian) on every run (`lib/binrw2lean.py`); the `ParserBE.P` readers of
 `Model/Exh.lean` / `Model/Exd.lean`, applied to their input, are `Layout.read` of the regenerated
 descriptors followed by a pure projection (`Proofs/BinrwTieExcel.lean`), for all inputs.  The ambient
-endianness `.little` in the statements is deliberately the wrong one: the structs' own
-`#[brw(big)]` (regenerated) decides. -/
+endianness `.big` in the statements is the regenerated one of the enclosing `EXH` / `EXD`
+(`c05_binrw_endian`). -/
 namespace Physis.C05
 open Physis.Binrw Physis.Generated
 
+theorem c05_binrw_endian :
+    BinrwExcel.eXH.endianOr .little = .big ∧ BinrwExcel.eXD.endianOr .little = .big :=
+  BinrwTie.Excel.endian_generated
+
 theorem c05_binrw_EXHHeader (l : Bytes) :
-    Exh.pHeader l = via BinrwTie.Excel.exhHeaderOf (Layout.read .little BinrwExcel.eXHHeader l) :=
+    Exh.pHeader l = via BinrwTie.Excel.exhHeaderOf (Layout.read .big BinrwExcel.eXHHeader l) :=
   BinrwTie.Excel.pHeader_eq_generated l
 
 theorem c05_binrw_ExcelDataPagination (l : Bytes) :
-    Exh.pPage l = via BinrwTie.Excel.pageOf (Layout.read .little BinrwExcel.excelDataPagination l) :=
+    Exh.pPage l = via BinrwTie.Excel.pageOf (Layout.read .big BinrwExcel.excelDataPagination l) :=
   BinrwTie.Excel.pPage_eq_generated l
 
 /-- `#[br(count = n)] Vec<ExcelDataPagination>` -/
 theorem c05_binrw_ExcelDataPagination_vec (n : Nat) (l : Bytes) :
     ParserBE.count Exh.pPage n l =
-      (repeatN (Kind.read .little [] (.struct BinrwExcel.excelDataPagination)) n l).bind fun vs =>
+      (repeatN (Kind.read .big [] (.struct BinrwExcel.excelDataPagination)) n l).bind fun vs =>
         (projAll BinrwTie.Excel.pageOfV vs.1).map (·, vs.2) :=
   BinrwTie.Excel.countPage_eq_generated n l
 
 theorem c05_binrw_ExcelDataOffset (l : Bytes) :
-    Exd.pDataOffset l = via BinrwTie.Excel.dataOffsetOf (Layout.read .little BinrwExcel.excelDataOffset l) :=
+    Exd.pDataOffset l = via BinrwTie.Excel.dataOffsetOf (Layout.read .big BinrwExcel.excelDataOffset l) :=
   BinrwTie.Excel.pDataOffset_eq_generated l
 
 /-- `#[br(count = n)] Vec<ExcelDataOffset>` -/
 theorem c05_binrw_ExcelDataOffset_vec (n : Nat) (l : Bytes) :
     ParserBE.count Exd.pDataOffset n l =
-      (repeatN (Kind.read .little [] (.struct BinrwExcel.excelDataOffset)) n l).bind fun vs =>
+      (repeatN (Kind.read .big [] (.struct BinrwExcel.excelDataOffset)) n l).bind fun vs =>
         (projAll BinrwTie.Excel.dataOffsetOfV vs.1).map (·, vs.2) :=
   BinrwTie.Excel.countDataOffset_eq_generated n l
 
@@ -649,11 +653,36 @@ theorem c05_binrw_ExcelDataOffset_vec (n : Nat) (l : Bytes) :
 `index_size / 8` offsets (the `count` expression itself is not translated) -/
 theorem c05_binrw_EXDHeader (l : Bytes) :
     Exd.pExdHead l =
-      (Layout.read .little BinrwExcel.eXDHeader l).bind fun x =>
+      (Layout.read .big BinrwExcel.eXDHeader l).bind fun x =>
         match x.1 with
         | [.w16 .u16 version, .w32 .u32 indexSize] =>
           (ParserBE.count Exd.pDataOffset (indexSize / 8).toNat x.2).map fun o => ((version, indexSize, o.1), o.2)
         | _ => none :=
   BinrwTie.Excel.pExdHead_eq_generated l
+
+end Physis.C05
+
+/-! ### T4 (continued): `ExcelColumnDefinition` and the `Language` elements -/
+namespace Physis.C05
+open Physis.Binrw Physis.Generated
+
+/-- `ExcelColumnDefinition`: `ColumnDataType` (`repr(u16)`, the regenerated discriminant list = the
+codes of the model's `ColumnDataType`, `BinrwTie.Excel.column_valid`) and the u16 offset -/
+theorem c05_binrw_ExcelColumnDefinition (l : Bytes) :
+    Exh.pColumn l = via BinrwTie.Excel.columnOf (Layout.read .big BinrwExcel.excelColumnDefinition l) :=
+  BinrwTie.Excel.pColumn_eq_generated l
+
+theorem c05_binrw_ExcelColumnDefinition_vec (n : Nat) (l : Bytes) :
+    ParserBE.count Exh.pColumn n l =
+      (repeatN (Kind.read .big [] (.struct BinrwExcel.excelColumnDefinition)) n l).bind fun vs =>
+        (projAll BinrwTie.Excel.columnOfV vs.1).map (·, vs.2) :=
+  BinrwTie.Excel.countColumn_eq_generated n l
+
+/-- `Vec<Language>` with `count = n`: each element is the regenerated `repr(u8)` enum `Language` -/
+theorem c05_binrw_Language_vec (n : Nat) (l : Bytes) :
+    ParserBE.count Exh.pLanguage n l =
+      (repeatN (Kind.read .big [] (.enum BinrwExcel.languageRepr BinrwExcel.languageValid)) n l).bind fun vs =>
+        (projAll BinrwTie.Excel.languageOfV vs.1).map (·, vs.2) :=
+  BinrwTie.Excel.countLanguage_eq_generated n l
 
 end Physis.C05
